@@ -594,8 +594,11 @@ def free_vars(frag, candidates):
     for nm in used:
         for i, t in enumerate(frag):
             if t.k == "id" and t.s == nm and (i == 0 or frag[i - 1].s not in (".", "::")):
-                if i > 0 and (frag[i - 1].s == "let" or (frag[i - 1].s == "mut" and i > 1 and frag[i - 2].s == "let")):
+                if i > 0 and (frag[i - 1].s in ("let", "for") or (frag[i - 1].s == "mut" and i > 1 and frag[i - 2].s == "let")):
                     pass
+                elif i > 1 and frag[i - 1].s == "(" and frag[i - 2].k == "id" and frag[i - 2].s[0].isupper() and i + 2 < len(frag) \
+                        and frag[i + 1].s == ")" and frag[i + 2].s in ("=>", "="):
+                    pass    # bound by a tuple-struct pattern: `Err(err) =>`, `if let Some(x) =`
                 else:
                     res.append(nm)
                 break
